@@ -200,10 +200,20 @@ def evaluate(case, res):
                             chain.append(ptk)
                             cur = hist.rows[trace.WF].get(
                                 ptk.get('workflow_execution_id'))
-                        if any(p.get('_created_commit', 1 << 30) <= cno0
-                               for p in chain) and \
-                                actor.startswith('rpc:start_'):
+                        old_tasks = [p for p in chain if p.get(
+                            '_created_commit', 1 << 30) <= cno0]
+                        if old_tasks and actor.startswith('rpc:start_'):
                             tag += ' idle_task_started_after_cancel'
+                        elif old_tasks:
+                            # continuation of a task that existed before the
+                            # cancel: next item of a with-items task, next
+                            # attempt of a retried sub-workflow task
+                            sp = (snap['task'].get(old_tasks[0].get('id'))
+                                  or {}).get('spec') or {}
+                            if sp.get('with-items'):
+                                tag += ' with_items_continues_after_cancel'
+                            if sp.get('retry'):
+                                tag += ' retry_continues_after_cancel'
                         out.append((
                             'C11.task_created_after_stop',
                             '%s %s created at step %d by %s below '
